@@ -934,6 +934,13 @@ def opComputeNodesPattern : Op K := fun n a =>
   let o := outVec o m (fun k => ((Glue.nodesCol nx ny k : Nat) : K))
   outVec o m (fun k => Glue.nodesVal ny (at_ a 0) k)
 
+/-- ints: nx ny off which ; → rows[4m] cols[4m] val[4m], m = 3 (nx-1)(ny-1): declared constant partials of CollocationPoints -/
+def opCollocationPattern : Op K := fun n _ =>
+  let nx := n[0]!; let ny := n[1]!; let off := n[2]!; let which := n[3]!; let m := 12 * ((nx - 1) * (ny - 1))
+  let o := outVec #[] m (fun k => ((Glue.collRow nx ny off k : Nat) : K))
+  let o := outVec o m (fun k => ((Glue.collCol nx ny k : Nat) : K))
+  outVec o m (fun k => Glue.collVal which nx ny k)
+
 def ops : List (String × Op K) := [
   ("ComputeNodes", opComputeNodes),
   ("LoadTransfer", opLoadTransfer),
@@ -1026,7 +1033,8 @@ def ops : List (String × Op K) := [
   ("FEMPattern", opFEMPattern),
   ("SectionGeometry", opSectionGeometry),
   ("RadiusPattern", opRadiusPattern),
-  ("ComputeNodesPattern", opComputeNodesPattern)
+  ("ComputeNodesPattern", opComputeNodesPattern),
+  ("CollocationPattern", opCollocationPattern)
 ]
 
 end OAS.Driver
